@@ -59,6 +59,12 @@ def cases(tier, seed):
             "order": int(rng.integers(0, len(ORDERS))), "layout": ux.LAYOUTS[int(rng.integers(0, 4))] if rng.random() < 0.5 else "C",
             "orphans": int(rng.choice([0, 0, 0, 1, 3])), "supplied_edge_nodes": bool(rng.random() < 0.25), "xseed": int(rng.integers(0, 10**6)),
         }
+    from .. import samplefiles
+
+    for i, (fkind, rel, kw) in enumerate(samplefiles.netcdf_files(tier)):
+        if rel in samplefiles.INCONSISTENT_SOURCE_TABLES:
+            continue  # its own edge tables contradict its faces: nothing to hold the library to
+        yield {"kind": "sample_file", "file": rel, "kw": kw, "order": i % len(ORDERS), "format": fkind}
     # histories over two grids: the attributes of A and B are first read in an interleaved order
     npair = 60 if tier == "quick" else 8000
     for i in range(npair):
@@ -73,7 +79,7 @@ def _tiny_positions(n):
     return ref.unit(rng.normal(size=(n, 3)))
 
 
-def check_grid(ctx, grid, faces, n_node, width, closed, order, sig_base, obs=None):
+def check_grid(ctx, grid, faces, n_node, width, closed, order, sig_base, obs=None, supplied_face_edge=False):
     """Observe the five attributes in the given first-access order and compare with the model."""
     if obs is None:
         obs = {}
@@ -110,6 +116,14 @@ def check_grid(ctx, grid, faces, n_node, width, closed, order, sig_base, obs=Non
         for f, ring in enumerate(faces):
             k = len(ring)
             me = ref.face_edges(ring)
+            if supplied_face_edge:
+                # a table the source ships keeps the source's own slot convention (MPAS: edge j precedes corner j): the statement's
+                # slot rule is about derived tables - here the row must list exactly the face's edges, once each, then padding
+                row = [int(e) for e in fe[f] if int(e) != ux.INT_FILL]
+                if any(e < 0 or e >= len(got) for e in row) or sorted(map(sorted, (got[e] for e in row))) != sorted(map(sorted, me)) or len(row) != k:
+                    ok, why = False, "face %d lists edges %s joining %s, its boundary segments are %s" % (f, row, [sorted(got[e]) for e in row if 0 <= e < len(got)], sorted(map(sorted, me)))
+                    break
+                continue
             for j in range(width):
                 e = int(fe[f, j])
                 if j < k:
@@ -165,6 +179,21 @@ def run_case(ctx, case):
         return
     if case["kind"] == "pair":
         return run_pair(ctx, case)
+    if case["kind"] == "sample_file":
+        from .. import samplefiles
+
+        g, m = samplefiles.open_with_model(case["file"], case["kw"])
+        width = int(np.asarray(g.face_node_connectivity.values).shape[1])
+        # a closed sample mesh may carry nodes no face uses or coincident nodes (cubed-sphere files duplicate nothing, lat-lon files
+        # repeat the pole): Euler's relation is demanded only where every node is used exactly as a distinct point
+        used = len({v for f in m.faces for v in f}) == m.n_node
+        sup = samplefiles.supplied_tables(case["format"], case["file"])
+        check_grid(ctx, g, m.faces, m.n_node, width, bool(m.closed and used and case["file"] not in ("ugrid/outRLL1deg/outRLL1deg.ug",)), case["order"],
+                   {"kind": "sample_file", "file": case["file"].split("/")[-1], "mixed": len({len(f) for f in m.faces}) > 1, "format": case["format"]},
+                   supplied_face_edge="face_edge_connectivity" in sup)
+        ctx.mark_nontrivial()
+        ctx.observe("sample_files")
+        return
     m = gen.build(case["mesh"])
     if case.get("orphans"):
         m = gen.with_orphans(m, case["xseed"], case["orphans"])  # nodes no face uses, anywhere in the numbering
